@@ -37,14 +37,16 @@ EXTENDS TapeAbs, Json, IOUtils
 
 Cases == ndJsonDeserialize(IOEnv.CASES)
 
-VARIABLES t, l, verdict, why, far
-vars == <<abs, t, l, verdict, why, far>>
+VARIABLES t, l, verdict, why, far,
+          claimed   \* positions for which a bounds query answered "accessible": the tape never shrinks,
+                    \* so a later write there must not have to allocate
+vars == <<abs, t, l, verdict, why, far, claimed>>
 
 Ev == Cases[t].events
 End == Cases[t].end
 Refused == Cases[t].refused
 
-Init == /\ AbsInit /\ t \in 1..Len(Cases) /\ l = 1 /\ verdict = "run" /\ why = <<>> /\ far = 0
+Init == /\ AbsInit /\ t \in 1..Len(Cases) /\ l = 1 /\ verdict = "run" /\ why = <<>> /\ far = 0 /\ claimed = {}
 
 Q1(e) == IF Len(e) >= 7 THEN e[7] ELSE 0
 Q2(e) == IF Len(e) >= 8 THEN e[8] ELSE 0
@@ -60,7 +62,7 @@ Decide(v, w) == verdict' = v /\ why' = w
 
 AtEnd ==
   /\ l = Len(Ev) + 1
-  /\ UNCHANGED <<abs, l, far>>
+  /\ UNCHANGED <<abs, l, far, claimed>>
   /\ IF End = "ok"
      THEN IF Refused = 0 THEN Decide("accepted", <<"complete", l - 1>>)
           ELSE Decide("rejected", <<"continued-after-refused-allocation">>)
@@ -75,13 +77,15 @@ Call ==
   /\ l' = l + 1
   /\ LET e == Ev[l]  op == e[1] IN
      IF e[6] > 0
-     THEN /\ UNCHANGED <<abs, far>>
+     THEN /\ UNCHANGED <<abs, far, claimed>>
           /\ Decide("rejected", <<"call-returned-after-refused-allocation", l, op>>)
      ELSE IF Unsatisfiable(e)
-     THEN /\ UNCHANGED <<abs, far>>
+     THEN /\ UNCHANGED <<abs, far, claimed>>
           /\ Decide("rejected", <<"returned-from-unsatisfiable-request", l, op, far + Q1(e)>>)
      ELSE
      /\ far' = IF op = "mov" THEN far + Q1(e) ELSE far
+     /\ claimed' = IF op \in {"check", "checkp"} /\ far + Q1(e) = 0 /\ e[4] = 1
+                   THEN claimed \cup {ptr + e[2]} ELSE claimed
      /\ CASE op = "rt" ->
             /\ AbsMov(0)
             /\ IF e[5] = 0 THEN Decide("run", why) ELSE Decide("rejected", <<"conversion-allocated", l>>)
@@ -108,7 +112,10 @@ Call ==
                ELSE IF e[5] # 0 THEN Decide("rejected", <<"read-allocated", l>>)
                ELSE Decide("run", why)
        [] op = "write" ->
-            /\ AbsWrite(e[2], e[3]) /\ Decide("run", why)
+            /\ AbsWrite(e[2], e[3])
+            /\ IF (ptr + e[2]) \in claimed /\ e[5] > 0
+               THEN Decide("rejected", <<"cell-was-reported-accessible-but-the-write-allocated", l, e[2]>>)
+               ELSE Decide("run", why)
        [] op = "acc" ->
             /\ AbsMakeAcc(e[2], e[3]) /\ Decide("run", why)
        [] op \in {"check", "checkp"} ->
